@@ -149,7 +149,7 @@ def pdict(p, alias=0, drop=()):
     return out
 
 
-def write_card(spec, form="slots", variant=None, seed=0):
+def write_card(spec, form="slots", variant=None, seed=0, constrains=None):
     """returns (config dict, files to write {name: yaml-able dict})"""
     ent = entries_of(spec)
     defs = particle_defs(spec)  # base definitions (the variant is a local override)
@@ -235,6 +235,8 @@ def write_card(spec, form="slots", variant=None, seed=0):
                 rng.shuffle(v)
                 decay[k] = v
     cfg = {"data": {"dat_order": [FINAL[i] for i in range(nfin)]}, "decay": decay, "particle": particle}
+    if constrains:
+        cfg["constrains"] = copy.deepcopy(constrains)
     return cfg, files
 
 
@@ -266,6 +268,7 @@ def describe(config):
         "masses": masses,
         "bounds": {k: [None if x is None else float(x) for x in v] for k, v in dict(config.bound_dic).items()},
         "same": sorted(sorted(x) for x in amp.vm.same_list),
+        "gauss": {k: [float(x) for x in v] for k, v in dict(config.gauss_constr_dic).items()},
     }
 
 
@@ -298,7 +301,7 @@ def compare_expected(ctx, desc, exp, what):
 
 
 def compare_exact(ctx, a, b, what):
-    for key in ("chains", "parts", "names", "free", "fixed", "masses", "bounds", "same"):
+    for key in ("chains", "parts", "names", "free", "fixed", "masses", "bounds", "same", "gauss"):
         ctx.check(a[key] == b[key], "same_model:" + key, "%s: %s differs: %s vs %s" % (what, key, _diff(a[key], b[key]), ""))
 
 
@@ -331,7 +334,7 @@ def card_history(ctx, case):
     cls = ["nfinal=%d" % len(spec["finals"])]
 
     def try_load(form, var, exp, what, seed=0):
-        cfg, files = write_card(spec, form, var, seed=case["seed"] + seed)
+        cfg, files = write_card(spec, form, var, seed=case["seed"] + seed, constrains=None if var else constrains)
         if not exp["chains"]:
             # no chain survives: the loader reports that by raising
             try:
@@ -344,11 +347,53 @@ def card_history(ctx, case):
         return describe(c), c
 
     base_form = case["base_form"]
+    constrains = None
     r = try_load(base_form, None, expX, "X first load")
     if r is None:
         return {"skip": "no_allowed_chain", "classes": ["no_allowed_chain"]}
     dX, cX = r
     compare_expected(ctx, dX, expX, "card X (%s form)" % base_form)
+    if case.get("constraint_picks"):
+        # a constrains section over the parameter names of X: fixed, bounded, tied, Gaussian
+        free = sorted(dX["free"])
+        picks = case["constraint_picks"]
+        cons = {}
+        used = set()
+        rs = [n for n in free if n.endswith("r")]
+        for kind, i, j, a, b in picks:
+            if not rs:
+                break
+            n = rs[i % len(rs)]
+            if n in used:
+                continue
+            if kind == "fix":
+                cons.setdefault("fix_var", {})[n] = round(0.5 + a, 6)
+                used.add(n)
+            elif kind == "range":
+                cons.setdefault("var_range", {})[n] = [round(a, 6), round(a + 1.0 + b, 6)]
+                used.add(n)
+            elif kind == "gauss":
+                cons.setdefault("gauss_constr", {})[n] = [round(1.0 + a, 6), round(0.1 + b, 6)]
+                used.add(n)
+            elif kind == "equal":
+                m = rs[j % len(rs)]
+                if m != n and m not in used:
+                    cons.setdefault("var_equal", []).append([n, m])
+                    used |= {n, m}
+        if cons:
+            constrains = cons
+            cls.append("with_constraints")
+            rc = try_load(base_form, None, expX, "X with constraints")
+            dX, cX = rc
+            compare_expected(ctx, dX, expX, "card X with a constrains section")
+            for n, v in cons.get("fix_var", {}).items():
+                ctx.check(n not in dX["free"] and n in dX["names"], "constraint_applied", "fix_var %s: still free or missing" % n)
+            for n, (lo, hi) in cons.get("var_range", {}).items():
+                ctx.check(dX["bounds"].get(n) == [lo, hi], "constraint_applied", "var_range %s: bounds %s, configured %s" % (n, dX["bounds"].get(n), [lo, hi]))
+            for n, (mu, sg) in cons.get("gauss_constr", {}).items():
+                ctx.check(dX["gauss"].get(n) == [mu, sg], "constraint_applied", "gauss_constr %s: %s, configured %s" % (n, dX["gauss"].get(n), [mu, sg]))
+            for a_, b_ in cons.get("var_equal", []):
+                ctx.check(any(a_ in grp and b_ in grp for grp in dX["same"]) and not (a_ in dX["free"] and b_ in dX["free"]), "constraint_applied", "var_equal %s = %s: tie classes %s" % (a_, b_, dX["same"][:3]))
     ry = try_load(base_form, variant, expY, "Y", seed=0)
     if ry is not None:
         compare_expected(ctx, ry[0], expY, "card Y = X with %s (loaded after X, same names)" % (variant,))
@@ -368,7 +413,7 @@ def card_history(ctx, case):
     # export round trip (before and after the amplitude was built)
     from tf_pwa.config_loader import ConfigLoader
 
-    cfgX, filesX = write_card(spec, base_form, None, seed=case["seed"])
+    cfgX, filesX = write_card(spec, base_form, None, seed=case["seed"], constrains=constrains)
     cfresh = load(cfgX, filesX)
     for tag, conf in (("fresh", cfresh), ("after get_amplitude", cX)):
         ex = conf.get_decay().as_config()
@@ -482,6 +527,7 @@ def case_st(draw):
         "forms": forms,
         "seed": draw(st.integers(0, 10**6)),
         "export_json": draw(st.booleans()),
+        "constraint_picks": draw(st.lists(st.tuples(st.sampled_from(["fix", "range", "gauss", "equal"]), st.integers(0, 30), st.integers(0, 30), st.floats(0, 1), st.floats(0, 1)), max_size=3)),
     }
 
 
